@@ -560,6 +560,13 @@ func oracle(es []entry, stored map[[2]string]*storedMod, p string, r resp) (clas
 		}
 		return ext + "-differs", fmt.Sprintf("%s: status %d body %q is not the stored .%s", p, r.status, r.body, ext), true
 	case "zip":
+		for _, c := range sm.contents {
+			for _, f := range c {
+				if len(path)+len(vers)+2+len(f.name) > 65535 {
+					return "", "", false // not representable in a zip (name length field is 16 bits)
+				}
+			}
+		}
 		if r.status != 200 {
 			return "stored-404", fmt.Sprintf("%s@%s is stored but %s gives %d", path, vers, p, r.status), true
 		}
@@ -625,6 +632,15 @@ var majors = []string{"v2", "v3", "v10"}
 var gopkgs = []string{"gopkg.in/yaml.v2", "gopkg.in/check.v1", "gopkg.in/x.v0", "gopkg.in/Foo/bar.v3", "gopkg.in/y.v2-unstable"}
 var badPaths = []string{"Example.com/x", "example/x", "example.com/x/v1", "example.com/con", "example.com/a~1", "example.com/.x", "example.com/x.", "-x.com/a", "example.com/x/v02", "example.com/a@b", "gopkg.in/yaml", "example.com/v2.1"}
 
+func randWord(r *rand.Rand, alpha string, max int) string {
+	n := 1 + r.Intn(max)
+	b := make([]byte, n)
+	for i := range b {
+		b[i] = alpha[r.Intn(len(alpha))]
+	}
+	return string(b)
+}
+
 func genPath(r *rand.Rand) string {
 	switch r.Intn(12) {
 	case 0:
@@ -637,6 +653,8 @@ func genPath(r *rand.Rand) string {
 	for i := 0; i < n; i++ {
 		if r.Intn(40) == 0 {
 			p += "/" + badElems[r.Intn(len(badElems))]
+		} else if r.Intn(8) == 0 {
+			p += "/" + randWord(r, "abcxyzABXZ019._~-v", 6) // may be invalid (NewServer then fails) or alias another name
 		} else {
 			p += "/" + elems[r.Intn(len(elems))]
 		}
@@ -668,9 +686,14 @@ func genVersion(r *rand.Rand, path string) string {
 		v = pick(pseudoVersions)
 	case k < 18:
 		v = pick(oddVersions[:len(oddVersions)-2])
+	case k == 18:
+		v = "v" + randWord(r, "0123.-+abAB_", 9) // mostly invalid
 	default:
 		// a random well-formed one
 		v = fmt.Sprintf("v%d.%d.%d", r.Intn(4), r.Intn(3), r.Intn(12))
+		if r.Intn(3) == 0 {
+			v += "-" + randWord(r, "ab01Z", 3) + []string{"", ".1", ".x-y", ".0"}[r.Intn(4)]
+		}
 	}
 	// bias towards the major version the path asks for
 	if _, pm, ok := module.SplitPathVersion(path); ok && pm != "" && r.Intn(3) != 0 && strings.HasPrefix(v, "v") && len(v) > 2 {
@@ -738,6 +761,16 @@ func genFiles(r *rand.Rand, path, vers, tag string) []afile {
 func writeArchive(dir, base, layout string, fs []afile, r *rand.Rand) {
 	switch layout {
 	case "txtar", "txt":
+		if r.Intn(15) == 0 {
+			// not produced by txtar.Format: whatever x/tools' Parse makes of it is what is stored
+			pieces := []string{"-- ", " --", "\n", "-- .info --\n", "-- .mod --\n", "-- go.mod --\n", "{}\n", "x", "-- a/b --", "\r\n", "--  --\n", "-- .x --\n", "module m\n", " ", "-- sub/.y --\n"}
+			var b []byte
+			for i, n := 0, r.Intn(14); i < n; i++ {
+				b = append(b, pieces[r.Intn(len(pieces))]...)
+			}
+			must(os.WriteFile(filepath.Join(dir, base+"."+layout), b, 0o666))
+			return
+		}
 		a := &xtxtar.Archive{}
 		if r.Intn(3) == 0 {
 			a.Comment = []byte("written by the harness\n")
@@ -1291,18 +1324,28 @@ func runProxy(tier string, seed int64, model string, replay string) *corr.Result
 			[]string{"/mod/example.com/foo_bar/@v/list", "/mod/example.com/foo_bar/@v/v1.0.0.info", "/mod/example.com/foo_bar/@v/v1.0.0.zip", "/mod/example.com/foo/bar/@v/v1.0.0.zip", "/mod/example.com/foo/bar/@v/list", "/mod/example.com/foo/bar/@v/v1.0.0.info"}, 0)
 		runScenario([]entry{{name: "example.com_a_b_v1.0.0.txt", data: ar("example.com/a/b")}}, nil,
 			[]string{"/mod/example.com/a/@v/b_v1.0.0.zip", "/mod/example.com/a/b/@v/v1.0.0.zip", "/mod/example.com/a_b/@v/v1.0.0.zip", "/mod/example.com/a/b/@v/v1.0.0.info"}, 8)
+		// a member name longer than 65535 bytes: zip.Writer.Create fails, the error is cached and served as 500
+		runScenario([]entry{{name: "example.com_long_v1.0.0.txt", data: append(ar("example.com/long"), []byte("-- "+strings.Repeat("n", 70000)+" --\nx\n")...)}}, nil,
+			[]string{"/mod/example.com/long/@v/v1.0.0.zip", "/mod/example.com/long/@v/v1.0.0.info", "/mod/example.com/long/@v/v1.0.0.zip", "/mod/example.com/long/@v/list"}, 4)
 		// the fixture of /repo's own test
 		if fes := readStore(filepath.Join(repo, "goproxytest", "testdata", "mod")); len(fes) > 0 {
 			runScenario(fes, nil, nil, concCopies)
 		}
-		n := 120
+		n := 150
 		if thorough {
-			n = 1500
+			n = 4000
 		}
 		for i := 0; i < n; i++ {
 			allowBad := i%5 == 4
 			runScenario(nil, func(dir string) [][2]string { return genDir(r, dir, allowBad) }, nil, concCopies)
 		}
+	}
+	if replay == "" {
+		ne2e := 2
+		if thorough {
+			ne2e = 8
+		}
+		e2eGoCommand(res, ne2e)
 	}
 	for _, s := range scns {
 		cases = append(cases, s.line)
@@ -1420,7 +1463,8 @@ func runProxy(tier string, seed int64, model string, replay string) *corr.Result
 					}
 				}
 			}
-			input := "scn " + encodeStore(s.es, rand.New(rand.NewSource(1))) + " " + shortsField(s.es) + " " + hx(u)
+			// replayable input: the directory and the requests up to this one (responses may depend on the history)
+			input := "scn " + encodeStore(s.es, rand.New(rand.NewSource(1))) + " " + shortsField(s.es) + " " + strings.Join(hurlsOf(s.urls[:i+1]), ",")
 			class, what, checked := oracle(s.es, s.stored, u, rp)
 			if checked {
 				res.OracleChecked["C20"]++
@@ -1475,9 +1519,170 @@ func runProxy(tier string, seed int64, model string, replay string) *corr.Result
 	return res
 }
 
+func hurlsOf(urls []string) []string {
+	out := make([]string, len(urls))
+	for i, u := range urls {
+		out[i] = hx(u)
+	}
+	return out
+}
+
 func trunc(s string) string {
 	if len(s) > 1500 {
 		return s[:1500] + "…"
 	}
 	return s
+}
+
+// ============================================================ end to end: the go command as client
+
+// e2eGoCommand serves a directory of well-formed modules and lets the real go command download them
+// (GOPROXY = the server; offline otherwise).  Environment problems are recorded as observations;
+// only a content difference is a violation.
+func e2eGoCommand(res *corr.Result, n int) {
+	dir, err := os.MkdirTemp("", "verif-proxy-e2e")
+	must(err)
+	defer func() {
+		filepath.WalkDir(dir, func(p string, d os.DirEntry, err error) error {
+			if err == nil {
+				os.Chmod(p, 0o777)
+			}
+			return nil
+		})
+		os.RemoveAll(dir)
+	}()
+	mods := filepath.Join(dir, "mods")
+	must(os.MkdirAll(mods, 0o777))
+	type emod struct {
+		path, vers, layout string
+		files              []afile
+	}
+	mk := func(path, vers, layout, pkg string) emod {
+		gomod := "module " + path + "\n"
+		return emod{path, vers, layout, []afile{
+			{".info", []byte(fmt.Sprintf(`{"Version":%q,"Time":"2018-02-14T00:45:20Z"}`+"\n", vers))},
+			{".mod", []byte(gomod)},
+			{"go.mod", []byte(gomod)},
+			{pkg + ".go", []byte("package " + pkg + "\n\n// " + vers + "\n")},
+			{"sub/y.go", []byte("package sub\n")},
+			{".hidden", []byte("must not be in the zip\n")},
+			{"sub/.keep", []byte("")},
+		}}
+	}
+	all := []emod{
+		mk("example.com/e2e/Foo", "v1.0.0", "txtar", "foo"),
+		mk("example.com/e2e/Foo", "v1.1.0", "dir", "foo"),
+		mk("example.com/e2e/Foo", "v1.1.1-0.20190101000000-abcdef123456", "txt", "foo"),
+		mk("example.com/e2e/Foo", "v2.0.0+incompatible", "txt", "foo"),
+		mk("example.com/e2e/Foo", "v1.2.0-RC1", "txtar", "foo"),
+		mk("example.com/e2e/bar/v2", "v2.3.4", "dir", "bar"),
+		mk("example.com/e2e/bar/v2", "v2.0.0", "txt", "bar"),
+		mk("gopkg.in/e2e.v3", "v3.0.1", "txtar", "e2e"),
+	}
+	r := rand.New(rand.NewSource(1))
+	for _, m := range all {
+		base := strings.ReplaceAll(escapeIndep(m.path), "/", "_") + "_" + escapeIndep(m.vers)
+		switch m.layout {
+		case "dir":
+			root := filepath.Join(mods, base)
+			for _, f := range m.files {
+				p := filepath.Join(root, filepath.FromSlash(f.name))
+				must(os.MkdirAll(filepath.Dir(p), 0o777))
+				must(os.WriteFile(p, f.data, 0o666))
+			}
+		default:
+			a := &xtxtar.Archive{}
+			for _, f := range m.files {
+				a.Files = append(a.Files, xtxtar.File{Name: f.name, Data: f.data})
+			}
+			must(os.WriteFile(filepath.Join(mods, base+"."+m.layout), xtxtar.Format(a), 0o666))
+		}
+	}
+	_ = r
+	srv, err := goproxytest.NewServer(mods, "")
+	if err != nil {
+		res.Violate("C20", "e2e", "NewServer fails on well-formed modules: "+err.Error(), "e2e-go-command")
+		return
+	}
+	defer srv.Close()
+	work := filepath.Join(dir, "work")
+	must(os.MkdirAll(work, 0o777))
+	must(os.WriteFile(filepath.Join(work, "go.mod"), []byte("module verif.test/e2e\n\ngo 1.21\n"), 0o666))
+	env := []string{"GOPROXY=" + srv.URL, "GONOSUMDB=*", "GONOSUMCHECK=1", "GOSUMDB=off", "GOFLAGS=-mod=mod", "GOTOOLCHAIN=local", "GO111MODULE=on",
+		"GOPATH=" + filepath.Join(dir, "gopath"), "GOMODCACHE=" + filepath.Join(dir, "modcache"), "GOCACHE=" + filepath.Join(dir, "gocache"),
+		"HOME=" + dir, "PATH=" + os.Getenv("PATH"), "GOROOT=" + os.Getenv("GOROOT"), "GONOPROXY=", "GOPRIVATE=", "GOINSECURE=", "GOVCS=*:off", "GOWORK=off"}
+	gocmd := func(args ...string) ([]byte, []byte, error) {
+		cmd := exec.Command("go", args...)
+		cmd.Dir = work
+		cmd.Env = env
+		var so, se bytes.Buffer
+		cmd.Stdout, cmd.Stderr = &so, &se
+		err := cmd.Run()
+		return so.Bytes(), se.Bytes(), err
+	}
+	done := 0
+	for i, m := range all {
+		if i >= n {
+			break
+		}
+		out, se, err := gocmd("mod", "download", "-json", m.path+"@"+m.vers)
+		var dl struct{ Path, Version, Error, Info, GoMod, Zip, Dir string }
+		if jerr := json.Unmarshal(out, &dl); jerr != nil {
+			res.Observations = append(res.Observations, fmt.Sprintf("end-to-end go command pass skipped: go mod download gave no JSON (%v; %s)", err, trunc(string(se))))
+			return
+		}
+		what := ""
+		switch {
+		case dl.Error != "":
+			what = "go mod download " + m.path + "@" + m.vers + ": " + dl.Error
+		case dl.Version != m.vers:
+			what = "downloaded version " + dl.Version + ", want " + m.vers
+		default:
+			if d, err := os.ReadFile(dl.GoMod); err != nil || !bytes.Equal(d, m.files[1].data) {
+				what = "downloaded .mod differs from the stored one"
+			}
+			var got []afile
+			filepath.WalkDir(dl.Dir, func(p string, d os.DirEntry, err error) error {
+				if err == nil && !d.IsDir() {
+					b, _ := os.ReadFile(p)
+					rel, _ := filepath.Rel(dl.Dir, p)
+					got = append(got, afile{filepath.ToSlash(rel), b})
+				}
+				return nil
+			})
+			var want []afile
+			for _, f := range m.files {
+				if !strings.HasPrefix(f.name, ".") {
+					want = append(want, f)
+				}
+			}
+			if !eqStrings(sortedMembers(got), sortedMembers(want)) {
+				what = fmt.Sprintf("extracted module %s@%s has files %d, want exactly the %d stored non-dot files with identical contents", m.path, m.vers, len(got), len(want))
+			}
+		}
+		res.OracleChecked["C20"]++
+		if what != "" {
+			res.Violate("C20", "e2e "+m.path+"@"+m.vers, what, "e2e-go-command")
+		}
+		done++
+	}
+	// the version list as the go command sees it
+	out, se, err := gocmd("list", "-m", "-versions", "-json", "example.com/e2e/Foo@v1.0.0")
+	var lm struct {
+		Versions []string
+		Error    *struct{ Err string }
+	}
+	if jerr := json.Unmarshal(out, &lm); jerr != nil || err != nil {
+		res.Observations = append(res.Observations, fmt.Sprintf("end-to-end go list -m -versions skipped (%v; %s)", err, trunc(string(se))))
+	} else {
+		res.OracleChecked["C20"]++
+		want := []string{"v1.0.0", "v1.1.0", "v1.2.0-RC1", "v2.0.0+incompatible"}
+		got := append([]string{}, lm.Versions...)
+		sort.Strings(got)
+		if !eqStrings(got, want) {
+			res.Violate("C20", "e2e list example.com/e2e/Foo", fmt.Sprintf("go list -m -versions = %v, want %v (valid non-pseudo versions)", got, want), "e2e-go-command")
+		}
+		done++
+	}
+	res.Distribution["e2e-go-command-checks"] = done
 }
